@@ -5,7 +5,7 @@ import sys
 
 from engine import oracles
 from engine.runner import Ob
-from props.common import cache_entries, defined_ops, has_interp, install_iter_unpack_model, make_portable, mkbytes, tables_for, tshort
+from props.common import QUICK_TABLES, cache_entries, defined_ops, has_interp, install_iter_unpack_model, make_portable, mkbytes, tables_for, tshort
 from props.c02 import _pick
 
 LEVEL = "model_checking"
@@ -21,7 +21,7 @@ EXPLANATION = (
 BOUNDS = {"quick": "tables 2.7, 3.6, 3.9, 3.11, 3.12, 3.13; every defined opcode; formats classic (context 0) and extended-bytes "
                    "(context 6); operand 0..5 within validity (0..2 for variable-pop opcodes under the stack-simulating formats); windows of <= 5 instructions + cache slots; header/xasm via disco on "
                    "one window per table",
-          "thorough": "all tables; formats classic, bytes, extended, extended-bytes, each with contexts 0 and 2; operand 0..9"}
+          "thorough": "20 tables (every version with an interpreter here, plus 1.0, 1.5, 1.6, 2.0, 2.2, 3.3, 3.5 and PyPy 2.7/3.8/3.9); formats classic, bytes, extended, extended-bytes; operand 0..9"}
 OUTSIDE = ["line-number column of SET_LINENO-era (< 2.3) listings (taken from SET_LINENO operands, not from starts_line)",
            "whole real programs: totality is claimed over the bounded instruction windows only",
            "show_source (reads source files)", "the click CLI wrapper (pydisasm)", "operands CPython's own dis rejects"]
@@ -708,7 +708,11 @@ def generate(tier, seed):
     tabs = opc_tables()
     oracles.load_dis27()
     extra = [corpus_files_ob(f, g) for f in ("classic", "bytes", "extended", "extended-bytes", "xasm", "header") for g in ("rest", "3.2pypy")]
-    names = C12_TABLES if tier == "quick" else sorted(tabs)
+    # thorough: every table that has an interpreter in the sandbox plus one or two per older/variant family (all 77 tables take
+    # about six hours; the first complete run of that size is what found the 1.5-2.0 line-number defect and three false alarms)
+    THOROUGH = sorted(set(C12_TABLES) | set(QUICK_TABLES) | {"opcode_10", "opcode_16", "opcode_20", "opcode_22", "opcode_33", "opcode_37", "opcode_38",
+                                                            "opcode_310", "opcode_39pypy"})
+    names = C12_TABLES if tier == "quick" else [t for t in THOROUGH if t in tabs]
     obs = []
     for tname in names:
         opc = tabs[tname]
